@@ -26,11 +26,10 @@ def argsOfJson (j : J) : List (String × Option String) :=
 
 /-- argument literal as sent by the harness (same wire form as the C07 driver) -/
 partial def litOfWire (j : J) : PyGql.Coerce.Lit :=
-  let cls : PyGql.Coerce.FCls := match j.strD "cls" with | "inf" => .inf | "nan" => .nan | _ => .finite
   match j.strD "k" with
   | "null" => .null
   | "int" => .int (j.intD "v")
-  | "float" => .float (j.strD "v") cls
+  | "float" => .float (j.strD "v")
   | "str" => .str (j.strD "v")
   | "bool" => .bool (j.boolD "v")
   | "enum" => .enum (j.strD "v")
